@@ -3,6 +3,7 @@ import random
 import sys
 from typing import Any, Dict, Iterator
 
+import core
 from core import Case, Prop, SelfCheckFailure
 from gen import hx, unhx, pool, out_pool, rbytes
 
@@ -16,6 +17,10 @@ def _hdr(a):
     return SpacePacketHeader(
         packet_type=PacketType(a["ptype"]), apid=a["apid"], seq_count=a["count"], data_len=a["dlen"],
         sec_header_flag=bool(a["shf"]), seq_flags=SequenceFlags(a["flags"]), ccsds_version=a["version"])
+
+
+# the exhaustive word sweeps decode ~200 000 headers: they look back one object only (run time)
+_ISO_SWEEP = core.Isolation(keep=1)
 
 
 def _fields(h: SpacePacketHeader):
@@ -40,11 +45,10 @@ def op_sph_new(a):
 
 def op_sph_pack(a):
     h = _hdr(a)
-    raw = h.pack()
-    if bytes(h.pack()) != bytes(raw):
-        raise SelfCheckFailure("pack() twice gives different octets")
-    h2 = SpacePacketHeader.unpack(bytes(raw))
-    if not (h2 == h) or _fields(h2) != _fields(h):
+    # (packs twice, the caller modifying the first returned buffer in between)
+    raw = core.pack_stable(h, "SpacePacketHeader.pack()")
+    h2 = SpacePacketHeader.unpack(raw)
+    if not (h2 == h) or core.ISOLATION.check("SpacePacketHeader", h2, _fields) != _fields(h):
         raise SelfCheckFailure("unpack(pack(h)) is not equal to h")
     return {"raw": hx(raw)}
 
@@ -52,9 +56,11 @@ def op_sph_pack(a):
 def op_sph_unpack(a):
     raw = unhx(a["raw"])
     h = SpacePacketHeader.unpack(raw)
-    if bytes(h.pack()) != raw[:6]:
+    # headers decoded by earlier calls must still show what they showed then
+    f = _ISO_SWEEP.check("SpacePacketHeader", h, _fields)
+    if core.pack_stable(h, "SpacePacketHeader.pack() of a decoded header") != raw[:6]:
         raise SelfCheckFailure("pack(unpack(b)) != b[:6]")
-    return _fields(h)
+    return f
 
 
 def op_pid_raw(a):
@@ -79,7 +85,7 @@ def op_sp_pack(a):
     h = _hdr(a)
     sec = None if a["sec"] is None else unhx(a["sec"])
     user = None if a["user"] is None else unhx(a["user"])
-    return {"raw": hx(SpacePacket(h, sec, user).pack())}
+    return {"raw": hx(core.pack_stable(SpacePacket(h, sec, user), "SpacePacket.pack()"))}
 
 
 def op_apid_from_raw(a):
@@ -207,6 +213,12 @@ class C01(Prop):
                 ok = (h["shf"] == 1 and secv is not None) or (h["shf"] == 0 and userv is not None)
                 yield Case({"op": "sp_pack", **h, "sec": secv, "user": userv}, "valid" if ok else "invalid",
                            errclass=not ok, tag="generic-packet")
+        # --- back-to-back decodes of headers that differ in every bit (an object decoded earlier must not follow) ---
+        for _ in range(2000 if thorough else 200):
+            raw = rbytes(rng, 6)
+            yield Case({"op": "sph_unpack", "raw": hx(raw)}, "valid", tag="complement-pair")
+            yield Case({"op": "sph_unpack", "raw": hx(bytes(x ^ 0xFF for x in raw) + rbytes(rng, 2))}, "valid", tag="complement-pair")
+            yield Case({"op": "sph_pack", **rand_hdr(rng)}, "valid", tag="complement-pair")
         # --- short input ---
         for ln in range(0, 6):
             for _ in range(20):
